@@ -796,21 +796,26 @@ Proof.
   - cbn. split; reflexivity.
 Qed.
 
-(** an operation that leaves an account's own balances alone leaves its reported energy alone
-    (same epoch): tokens moving into, inside or out of escrow, or between other accounts, never
-    show up in a third party's entry *)
-Theorem inv_frame_view s s' u : EnergyInv s -> EnergyInv s' -> 0 < u -> s_now s' = s_now s ->
-  (forall e, lget (s_bal s') u e = lget (s_bal s) u e) ->
-  epochs_of (s_bal s') u = epochs_of (s_bal s) u ->
-  view_entry s' u = view_entry s u.
+(** an operation whose balance changes [d] concern other holders only (other accounts, the escrows)
+    leaves the account's reported energy alone: tokens moving into, inside or out of escrow, or
+    between other accounts, never show up in a third party's entry *)
+Lemma ledger_other_holders d l u : Forall (fun x => fst (fst x) <> u) d ->
+  lweight (d ++ l) u = lweight l u /\ ltotal (d ++ l) u = ltotal l u /\ (forall e, lget (d ++ l) u e = lget l u e).
 Proof.
-  intros I I' Hu Hn Hb He.
-  destruct (inv_view s u I Hu) as (A & T & U & _). destruct (inv_view s' u I' Hu) as (A' & T' & U' & _).
-  assert (spec_energy (s_bal s') u (s_now s') = spec_energy (s_bal s) u (s_now s)).
-  { unfold spec_energy. rewrite He, Hn. apply sumf_ext. intros e. rewrite Hb. reflexivity. }
-  assert (spec_total (s_bal s') u = spec_total (s_bal s) u).
-  { unfold spec_total. rewrite He. apply sumf_ext. intros e. rewrite Hb. reflexivity. }
-  destruct (view_entry s' u), (view_entry s u). simpl in *. congruence.
+  induction d as [|[[h e] a] t IH]; simpl; intros H; [auto|].
+  inversion H as [|? ? Hh Ht]; subst. simpl in Hh. destruct (IH Ht) as (A & B & C).
+  destruct (h =? u) eqn:E; zb; [contradiction|]. simpl. rewrite A, B. repeat split; auto.
+Qed.
+
+Theorem inv_frame_view s s' u d : EnergyInv s -> EnergyInv s' -> 0 < u -> s_now s' = s_now s ->
+  s_bal s' = d ++ s_bal s -> Forall (fun x => fst (fst x) <> u) d ->
+  view_entry s' u = view_entry s u /\ (forall e, lget (s_bal s') u e = lget (s_bal s) u e).
+Proof.
+  intros I I' Hu Hn Hb Hd.
+  destruct (ledger_other_holders d (s_bal s) u Hd) as (LW & LT & LG). rewrite <- Hb in LW, LT, LG.
+  split; [|exact LG].
+  destruct (entry_fresh s u I Hu) as (U & A & T & _). destruct (entry_fresh s' u I' Hu) as (U' & A' & T' & _).
+  unfold view_entry. destruct (entry_now s' u), (entry_now s u). simpl in *. rewrite LW, LT, Hn in *. congruence.
 Qed.
 
 (** every lock / extend / merge / reduce that succeeds produces a token whose unlock epoch is in the
